@@ -274,7 +274,7 @@ def main(tier, seed, replay=None):
     proof = Proof(PROP)
     exe, _ = build_model(PROP, "ExtractC18.v", os.path.join(ROOT, "ocaml/c18"), ["theories/RegexProg.v"])
     rng = random.Random(seed)
-    ncase = 5000 if tier == "quick" else 20000
+    ncase = 5000 if tier == "quick" else 40000
     la, lf = (6, 6) if tier == "quick" else (6, 7)
     cases = []
     cdir = os.path.join(ROOT, "corpus", PROP)
